@@ -118,6 +118,10 @@ func ParseCSeqVal(buf []byte, offs int, pcs *PCSeqBody) (int, ErrorHdr) {
 				pcs.soffs = i
 				pcs.CSeqNo = uint32(c - '0')
 			case csFoundDigit:
+				if pcs.CSeqNo > (MaxCSeqNValue-uint32(c-'0'))/10 {
+					// would not fit in 32 bits
+					return i, ErrHdrNumTooBig
+				}
 				v := pcs.CSeqNo*10 + uint32(c-'0')
 				if pcs.CSeqNo > v {
 					// overflow
